@@ -29,7 +29,7 @@ CONSTANTS
   MaxFrames,     \* a stream has 1..MaxFrames frames
   Sizes,         \* absolute frame sizes
   RelSizes,      \* BOOLEAN: add the sizes k*cap + j around the packet boundaries
-  MaxRandSize,   \* 0, or: add one random size in 1..MaxRandSize per step
+  MaxRandPk,     \* 0, or: add one random size of at most MaxRandPk packets per step
   Rates,         \* set of <<numerator, denominator>> (WithFrameRate)
   Starts,        \* set of first timestamps <<h, l>> (16-bit limbs)
   Deltas,        \* per-frame timestamp increments
@@ -187,12 +187,19 @@ WriteRTP ==
 Cap == cfg.mtu - PayloadHdr(cfg.codec, FALSE, FALSE)
 SizeChoices ==
   Sizes \cup (IF RelSizes THEN {s \in {k * Cap + j : k \in 1..2, j \in {-1, 0, 1}} : s >= 1} ELSE {})
-        \cup (IF MaxRandSize > 0 THEN RandomSubset(1, 1..MaxRandSize) ELSE {})
+        \cup (IF MaxRandPk > 0 THEN RandomSubset(1, 1..(MaxRandPk * Cap)) ELSE {})
 DeltaChoices == Deltas \cup (IF MaxRandDelta > 0 THEN RandomSubset(1, 1..MaxRandDelta) ELSE {})
+
+\* the first frame: a key frame (premise of C32); when NonKeyStart, exhaustively also an inter frame, and in
+\* simulation an inter frame in about one stream out of eight
+FirstKeyChoices ==
+  IF ~NonKeyStart THEN {TRUE}
+  ELSE IF Sample THEN (IF RandomSubset(1, 1..8) = {1} THEN {FALSE} ELSE {TRUE})
+  ELSE BOOLEAN
 
 Frame ==
   /\ phase = "open" /\ pend = <<>> /\ nfr < cfg.nf
-  /\ \E key \in Pick(IF nfr = 0 /\ ~NonKeyStart THEN {TRUE} ELSE BOOLEAN),
+  /\ \E key \in (IF nfr = 0 THEN FirstKeyChoices ELSE Pick(BOOLEAN)),
         size \in Pick(SizeChoices),
         delta \in Pick(IF nfr = 0 THEN {0} ELSE DeltaChoices),
         lost \in Pick(IF Lossy THEN BOOLEAN ELSE {FALSE}),
@@ -248,19 +255,21 @@ TypeOK == /\ phase \in {"open", "closed"} /\ nfr \in 0..MaxFrames /\ count \in 0
 
 \* normative C32 operators on the model
 ModelReadBack ==
-  /\ Rd.ok
-  /\ ReadBackEqualsAssembled([k \in 1..Len(Rd.frames) |-> Rd.frames[k].toks], [k \in 1..Len(asm) |-> asm[k].toks])
+  LET rd == Rd IN
+  /\ rd.ok
+  /\ ReadBackEqualsAssembled([k \in 1..Len(rd.frames) |-> rd.frames[k].toks], [k \in 1..Len(asm) |-> asm[k].toks])
 ModelHeader ==
-  /\ RdHeader(file).sig = "DKIF" /\ RdHeader(file).version = 0
-  /\ HeaderFields(RdHeader(file), [codec |-> cfg.codec, w |-> cfg.dim[1], h |-> cfg.dim[2],
-                                   num |-> cfg.rate[1], den |-> cfg.rate[2]])
+  LET hd == RdHeader(file) IN
+  /\ hd.sig = "DKIF" /\ hd.version = 0
+  /\ HeaderFields(hd, [codec |-> cfg.codec, w |-> cfg.dim[1], h |-> cfg.dim[2], num |-> cfg.rate[1], den |-> cfg.rate[2]])
 ModelCount == phase = "closed" => CountWhenSeekable(Seekable(cfg.ctor), RdHeader(file).nframes, Len(asm))
 ModelPts ==
-  Rd.ok => \A k \in 1..Len(asm) :
+  LET rd == Rd IN
+  rd.ok => \A k \in 1..Len(asm) :
      LET d == Delta32(asm[k].ts, asm[1].ts) IN
      /\ DeltaFits(d)
      /\ PtsComputable(DeltaInt(d), Clock, cfg.rate[1], cfg.rate[2], cfg.direct)
-     /\ PtsFormula(Rd.frames[k].pts, DeltaInt(d), Clock, cfg.rate[1], cfg.rate[2], cfg.direct)
+     /\ PtsFormula(rd.frames[k].pts, DeltaInt(d), Clock, cfg.rate[1], cfg.rate[2], cfg.direct)
 
 \* model-level results about the assembly automaton
 Premise == Len(inp) > 0 /\ inp[1].key /\ \A k \in 1..Len(inp) : ~inp[k].lost
@@ -272,6 +281,11 @@ ModelKeyGate ==      \* the first assembled frame belongs to a key frame (VP9 fl
      => inp[FirstData(asm[1].toks).f].key
 ModelWholeFrames ==  \* VP8 / VP9: a frame whose first packet is missing is never written, nothing partial is
   cfg.codec # "AV1" => \A k \in 1..Len(asm) : \E f \in 1..Len(inp) : asm[k].toks = inp[f].toks /\ ~inp[f].lost
+
+\* simulation: the same invariants, evaluated once per behaviour, on its final state (the file only grows)
+SimInv == phase = "closed" =>
+            /\ ModelReadBack /\ ModelHeader /\ ModelCount /\ ModelPts
+            /\ ModelPremiseAssemblesAll /\ ModelKeyGate /\ ModelWholeFrames
 
 (* ---- vector emission ------------------------------------------------------ *)
 Vec == [codec |-> cfg.codec, mtu |-> cfg.mtu, num |-> cfg.rate[1], den |-> cfg.rate[2], direct |-> cfg.direct,
